@@ -12,6 +12,6 @@ CHECK = {'level': 'exploration',
  'technique': 'exhaustive enumeration + property-based testing (rapid) against a LIP-0014 reference',
  'assumptions': ['reference = my transcription of LIP-0014', 'wall clock read by forkchoice.NewForkChoice is steered by slot placement'],
  'quick': [{'pkg': 'c07', 'checks': 3000, 'timeout': 600, 'args': ['-test.skip', 'TestTieBreakSequence']},
-           {'pkg': 'c07', 'run': 'TestTieBreakSequence', 'checks': 6, 'timeout': 300}],
+           {'pkg': 'c07', 'run': 'TestTieBreakSequence', 'checks': 10, 'timeout': 300}],
  'thorough': [{'pkg': 'c07', 'checks': 30000, 'shards': 8, 'scale': 1.5, 'timeout': 1500, 'args': ['-test.skip', 'TestTieBreakSequence']},
               {'pkg': 'c07', 'run': 'TestTieBreakSequence', 'checks': 14, 'shards': 8, 'gomaxprocs': 2, 'timeout': 900}]}
